@@ -20,11 +20,14 @@ EXPLANATION = ("Scanner termination is proved on the real code over a SYMBOLIC i
                "delta tokens or raises'; every call it makes is checked to decrease the well-founded measure (tokens left, rank) lexicographically "
                "(callsite_pre:termination_measure_decreases, the callee being replaced by its contract, recursion included) and every parser loop "
                "(parse_block, parse_initial, parse_map, parse_struct, parse_macro_definition_args, parse_expression_list_inner, DataNode's copy loop) has a decreasing variant.  "
-               "Expansion termination and the token-level sweep are the bounded part.")
+               "EXPANSION: every generator is proved (vf/contracts/c_expansion.py) to call _code_gen only on sub-trees of its own AST node (call-site obligation "
+               "expands_only_sub_trees_of_its_own_node), with .for a range loop over its two bounds and _code_gen / the data directives finite list loops: structural recursion on a "
+               "finite tree.  Macro application and code-block lookup recurse on the macro's body / the bound block (explicit recursion): bounded by CPython's recursion limit "
+               "only, covered by the bounded sweep, as is the token-level sweep.")
 TRUSTED = ["vf/specs/lexmodel.py (state-function contract used for the driver loop; established by lex_initial_progress_contract)"]
 ASSUMPTIONS = ["membership of a symbolic 3-character candidate in the opcode table is encoded exactly (one disjunct per mnemonic)",
                "File.append only records the line text (ghost for error messages); it is not tracked in these obligations",
-               "expansion recursion (strict sub-ASTs, .for counts, CPython's recursion limit for macro recursion) is covered by the bounded sweep only",
+               "macro / code-block recursion is bounded only by CPython's recursion limit (RecursionError is the reported error); covered by the bounded sweep",
                "parser: the `.include` branch of parse_keyword (open + nested scan + nested parse of another file) is excluded from parse_keyword's contract: its "
                "termination is by the nesting depth of the included files (a self-including file ends in CPython's RecursionError), not by the token measure",
                "parser: ast.literal_eval on a token text is modelled as 'any value or ValueError/SyntaxError'; token texts are strings shorter than 65536 characters",
@@ -226,11 +229,18 @@ def parser_cases(E):
     return [Case(PH + "parser_function_contract", name, shape_parser(name), target=[PSQ + name], timeout_ms=30000, group="parser") for name in PARSER_TABLE]
 
 
-FUNCTIONS = FUNCTIONS + PARSER_FUNCTIONS + ["a816.parse.ast.nodes.DataNode.__init__"]
+from vf.props import expansion as _exp  # noqa: E402
+FUNCTIONS = FUNCTIONS + PARSER_FUNCTIONS + ["a816.parse.ast.nodes.DataNode.__init__"] + _exp.FUNCTIONS
+ASSUMPTIONS = ASSUMPTIONS + ["expansion contracts: " + a for a in _exp.ASSUMED]
+
+
+def expansion_cases(E):
+    from vf.props import expansion
+    return expansion.cases(E)
 
 
 def cases(E):
-    return parser_cases(E) + [Case(H + "sublexer_contract", n, shape_sub(n), target=[LX + n], timeout_ms=30000) for n in SUBLEXERS] + [Case(H + "lex_initial_progress_contract", "any input, any position with a character left", shape_scanner, target=[LX + "lex_initial"], timeout_ms=30000),
+    return parser_cases(E) + expansion_cases(E) + [Case(H + "sublexer_contract", n, shape_sub(n), target=[LX + n], timeout_ms=30000) for n in SUBLEXERS] + [Case(H + "lex_initial_progress_contract", "any input, any position with a character left", shape_scanner, target=[LX + "lex_initial"], timeout_ms=30000),
             Case(H + "scan_loop_contract", "any input", shape_scan, target=[SC + "scan"], overrides={LX + "lex_initial": "vf.specs.lexmodel.state_function_model"})]
 
 
@@ -241,7 +251,8 @@ def bounded(tier, seed):
 
 def mutants():
     from vf.pyvc.mutate import textual
-    return [
+    from vf.props import expansion
+    return [m for m in expansion.mutants() if "expands-itself" in m.name] + [
         Mutant("parse_decl:comment-not-consumed", PSQ + "parse_decl", textual("    if accept_token(current_token, TokenType.COMMENT):\n        return None", "    if accept_token(current_token, TokenType.COMMENT):\n        p.backup()\n        return None"), only_harness="parser_function"),
         Mutant("parse_struct:comment-not-consumed", PSQ + "parse_struct", textual("            p.next()\n            continue", "            continue"), only_harness="parser_function"),
         Mutant("_parse_expression:token-not-consumed", PSQ + "_parse_expression", textual("current_token = p.next()", "current_token = p.current()"), only_harness="parser_function"),
